@@ -18,20 +18,21 @@ CONSTANTS MaxSize,     \* bound on the number of nodes
           Prods,       \* enabled productions (focused configurations)
           RootTys,     \* types of the generated programs
           MaxScope,    \* bound on the number of variables in scope
+          Mutations,   \* how many holes may be retyped (Mutate: programs that are ill-typed for the model)
           Emit
 
 Tys == {"I", "B", "F1", "F2", "R", "P", "O", "L", "A"}
 LetTys == {"I", "B", "F1", "F2", "R", "O", "L"}     \* types a let may bind
 GenTys == {"I", "B", "F1", "F2", "R", "O"}          \* result types of if / let / error
 
-VARIABLES prefix, pending, rootTy
-vars == <<prefix, pending, rootTy>>
+VARIABLES prefix, pending, rootTy, muts
+vars == <<prefix, pending, rootTy, muts>>
 
 Node(g, a, t) == [g |-> g, a |-> a, t |-> t]
 Hole(ty, sc) == [ty |-> ty, sc |-> sc]
 H == Head(pending)
 
-Init == prefix = <<>> /\ \E ty \in RootTys : (pending = <<Hole(ty, <<>>)>> /\ rootTy = ty)
+Init == prefix = <<>> /\ \E ty \in RootTys : (pending = <<Hole(ty, <<>>)>> /\ rootTy = ty /\ muts = 0)
 
 Fill(g, node, holes) ==
   /\ g \in Prods
@@ -39,7 +40,7 @@ Fill(g, node, holes) ==
   /\ prefix' = Append(prefix, node)
   /\ pending' = holes \o Tail(pending)
   /\ Len(prefix') + Len(pending') <= MaxSize
-  /\ UNCHANGED rootTy
+  /\ UNCHANGED <<rootTy, muts>>
 
 Ext(sc, ts) == sc \o ts
 Room(n) == Len(H.sc) + n <= MaxScope
@@ -87,10 +88,20 @@ PIdx   == H.ty = "I" /\ Fill("idx", Node("idx", 0, "I"), <<Hole("A", H.sc), Hole
 PRecF  == H.ty \in {"I"} /\ Room(2) /\ Fill("recf", Node("recf", 0, H.ty),
              <<Hole("I", Ext(H.sc, <<"F1", "I">>)), Hole("I", Ext(H.sc, <<"F1", "I", "I">>)), Hole(H.ty, Ext(H.sc, <<"F1">>))>>)
 
+\* Mutate: the leftmost hole silently changes its expected type - the program under construction is then ill-typed for the
+\* model (a subterm of another type sits where ty was expected).  Whether gluon's checker accepts it is up to the checker;
+\* the harness only demands that accepted programs do not go wrong.
+PRetype ==
+  /\ muts < Mutations /\ pending # <<>> /\ prefix # <<>>
+  /\ \E t2 \in (GenTys \cup {"P", "L", "A"}) \ {H.ty} :
+        pending' = <<Hole(t2, H.sc)>> \o Tail(pending)
+  /\ muts' = muts + 1
+  /\ UNCHANGED <<prefix, rootTy>>
+
 Next == pending # <<>> /\
   (PVar \/ PLit \/ PBig \/ PArith \/ PIf \/ PLet \/ PLetU \/ PApp1 \/ PApp2 \/ PPapp \/ PLam1 \/ PLam2 \/ PLam11 \/ PEff \/ PErr
    \/ PBool \/ PCmp \/ PLogic \/ PMkR \/ PUpd \/ PProj \/ PMkP \/ PMTup \/ POpt \/ PMOpt \/ PMPart \/ PMLit \/ PList \/ PMList
-   \/ PArr \/ PIdx \/ PRecF \/ PMListD \/ PMOpt3)
+   \/ PArr \/ PIdx \/ PRecF \/ PMListD \/ PMOpt3 \/ PRetype)
 
 Spec == Init /\ [][Next]_vars
 
@@ -371,7 +382,10 @@ HasType(r) ==
 
 \* one evaluation per program: type soundness of the model + emission of the behaviour for the replay
 Sound ==
-  Done => LET r == Run(prefix) IN
+  (Done /\ muts = 0) => LET r == Run(prefix) IN
           /\ HasType(r)
           /\ (Emit /\ r.k # "unrep") => PrintT(<<"PROG", ToJson(Outcome(prefix, r))>>)
+\* mutants are emitted without an outcome (the model has no opinion on ill-typed programs)
+EmitMutant ==
+  (Emit /\ Done /\ muts > 0) => PrintT(<<"PROG", ToJson([p |-> [j \in DOMAIN prefix |-> <<prefix[j].g, prefix[j].a, prefix[j].t>>], ty |-> rootTy, k |-> "mutant"])>>)
 =============================================================================
